@@ -162,6 +162,7 @@ func (x *Exec) evalTyped(e gcl.Expr, c *evalCtx) (typed, error) {
 			c2.env[k] = v
 		}
 		var decl []string
+		var decls [][2]string
 		x.qdepth++
 		for i, v := range e.Vars {
 			name := fmt.Sprintf("%s!b%d", v, x.qdepth)
@@ -172,17 +173,17 @@ func (x *Exec) evalTyped(e gcl.Expr, c *evalCtx) (typed, error) {
 			}
 			c2.env[v] = binding{smt.Raw(name, srt), gt}
 			decl = append(decl, "("+name+" "+srt+")")
+			decls = append(decls, [2]string{name, srt})
 		}
 		body, err := x.evalTyped(e.Body, &c2)
 		x.qdepth--
 		if err != nil {
 			return typed{}, err
 		}
-		q := "exists"
 		if e.Forall {
-			q = "forall"
+			return tv(smt.Forall(decls, body.t), types.Typ[types.Bool]), nil
 		}
-		return tv(smt.Raw("("+q+" ("+strings.Join(decl, " ")+") "+body.t.S+")", smt.Bool), types.Typ[types.Bool]), nil
+		return tv(smt.Raw("(exists ("+strings.Join(decl, " ")+") "+body.t.S+")", smt.Bool), types.Typ[types.Bool]), nil
 	case gcl.Field:
 		// package-qualified global (io.EOF, pq.Done)?
 		if id, ok := e.X.(gcl.Ident); ok {
@@ -229,11 +230,11 @@ func (x *Exec) evalTyped(e gcl.Expr, c *evalCtx) (typed, error) {
 		switch t := bt.Underlying().(type) {
 		case *types.Slice:
 			if isAggregate(t.Elem()) {
-				return tv(x.elemRef(t.Elem(), sArr(base.t), smt.Add(sOff(base.t), idx.t)), types.NewPointer(t.Elem())), nil
+				return tv(x.elemRef(t.Elem(), sArr(base.t), x.at(sOff(base.t), idx.t)), types.NewPointer(t.Elem())), nil
 			}
 			hn, hs := x.elemHeap(t.Elem())
 			h := x.heap(x.curState(c), hn, hs)
-			v := smt.Select(smt.Select(h, sArr(base.t)), smt.Add(sOff(base.t), idx.t))
+			v := smt.Select(smt.Select(h, sArr(base.t)), x.at(sOff(base.t), idx.t))
 			x.sideFacts(c, v, t.Elem())
 			return tv(v, t.Elem()), nil
 		case *types.Array:
@@ -692,7 +693,7 @@ func (x *Exec) evalCall(e gcl.Call, c *evalCtx) (typed, error) {
 			}
 			for i, p := range sp.Params {
 				typ := args[i].typ
-				if gt := x.specParamType(p[1], sp.Pkg); gt != nil {
+				if gt := x.specParamType(p[1], sp.Pkg); gt != nil && (typ == nil || p[1] != "Slice") {
 					typ = gt
 				}
 				c2.env[p[0]] = binding{args[i].t, typ}
